@@ -28,6 +28,7 @@ import scipy.linalg
 from pyttb.gcp.handles import Objectives
 from pyttb.gcp.optimizers import LBFGSB
 
+from harness import lib
 from harness.lib import Family, Verdict, call, deep_eq, dense_j, drive, frac, jval, strip_exc
 
 TOL = 1e-8          # relative, model tensor and reported numbers
@@ -748,7 +749,8 @@ class Seed(Family):
                 return r
             np.random.uniform = rec
             try:
-                a = run_alg(alg, as_data(X, "dense"), c, seed=c["seed"], **kw)
+                with lib.unit_spellings(rec):
+                    a = run_alg(alg, as_data(X, "dense"), c, seed=c["seed"], **kw)
                 after = np.random.random_sample()
             finally:
                 np.random.uniform = orig
